@@ -612,6 +612,7 @@ def run(ctx, tier, seed, shard, nshards):
         ctx.count("directed_mixin_histories", 48)
         shared_function_cases(ctx)
         property_posthoc_cases(ctx)
+        late_invariant_cases(ctx)
 
     @given(strategy())
     def test(case):
@@ -688,6 +689,54 @@ def property_posthoc_cases(ctx, only=None):
                     ctx.fail("property-posthoc|%s|%s-changed" % (accessor, name), {"property_posthoc": [accessor, target]},
                              "%s changed %s: it evaluated %r before and %r afterwards" % (label, name, before[name], after[name]))
                     break
+
+
+def late_invariant_cases(ctx, only=None):
+    """Invariants added in call form after the classes exist, to a hierarchy that had none when the sub-class was created:
+    an invariant put on the SUB-class afterwards is the sub-class' alone - the base (and a sibling) keep their verdicts."""
+    import icontract
+
+    for order in ("base first", "sub-class first", "sub-class only"):
+        if only and only != order:
+            continue
+        log = []
+
+        def inv(tag):
+            def c(self):
+                log.append(tag)
+                return True
+            return c
+
+        A = type(icontract.DBC)("A", (icontract.DBC,), {"__init__": lambda self: None, "m": lambda self: 1})
+        B = type(icontract.DBC)("B", (A,), {})
+        S = type(icontract.DBC)("S", (A,), {})
+        if order == "base first":
+            icontract.invariant(inv("a"))(A)
+            icontract.invariant(inv("b"))(B)
+            want = {"A": {"a"}, "B": {"a", "b"}, "S": {"a"}}
+        elif order == "sub-class first":
+            icontract.invariant(inv("b"))(B)
+            icontract.invariant(inv("a"))(A)
+            want = {"A": {"a"}, "B": {"b"}, "S": {"a"}}  # (B owns its list by then; what it inherits later is not ours to say)
+        else:
+            icontract.invariant(inv("b"))(B)
+            want = {"A": set(), "B": {"b"}, "S": set()}
+        got = {}
+        for K in (A, B, S):
+            del log[:]
+            try:
+                K().m()
+                got[K.__name__] = set(log)
+            except BaseException as e:  # noqa
+                got[K.__name__] = "%s: %s" % (type(e).__name__, e)
+        label = "invariants added after the classes exist (%s)" % order
+        ctx.case(["late-invariant", order], True, sample={"directed": label, "evaluated": {k: sorted(v) if isinstance(v, set) else v for k, v in got.items()}})
+        ctx.count("directed:late-invariant-cases")
+        for name in ("A", "S") + (("B",) if order != "sub-class first" else ()):
+            if got[name] != want[name]:
+                ctx.fail("late-invariant|%s|%s" % (order.split()[0], name), {"late_invariant": order},
+                         "%s: class %s evaluates the invariants %r, expected %r (all: %r)" % (label, name, got[name], want[name], got))
+                break
 
 
 def shared_function_cases(ctx, only=None):
@@ -779,6 +828,11 @@ def shared_function_cases(ctx, only=None):
 
 
 def replay(ctx, case):
+    if case.get("late_invariant"):
+        before = ctx.evaluations
+        late_invariant_cases(ctx, only=case["late_invariant"])
+        ctx.evaluations = before + 1
+        return
     if case.get("property_posthoc"):
         before = ctx.evaluations
         property_posthoc_cases(ctx, only=case["property_posthoc"])
